@@ -25,7 +25,7 @@ RULE = (
 )
 BOUNDS = {
     "quick": "shapes m,n<=3 (all rectangular), pool of 24 matrices per shape from 14 integer-modulus letters, all ordered pairs, triples of an 6-matrix sub-pool, 5 scalars, 7 valid + 9 invalid ord spellings",
-    "thorough": "shapes<=4, pool of 40, triples of a 10-matrix sub-pool",
+    "thorough": "shapes<=5",
 }
 WALL_BUDGET = {"quick": 300, "thorough": 2400}
 ASSUMPTIONS = ["2-norm compared with LAPACK singular values of the complex adjoint (budget 2^10 u ||A||)"]
@@ -64,7 +64,7 @@ def moduli(idx):
 
 
 def cases(tier, seed):
-    S = 3 if tier == "quick" else 4
+    S = 3 if tier == "quick" else 5
     out = []
     for m, n in itertools.product(range(1, S + 1), repeat=2):
         out.append({"key": f"def/{m}x{n}", "grp": "def", "m": m, "n": n})
